@@ -4,6 +4,7 @@
 package c11
 
 import (
+	"os"
 	"context"
 	"encoding/base64"
 	"encoding/binary"
@@ -48,7 +49,27 @@ type TokSpec struct {
 	Iat     string `json:"iat"`  // "recent", "absent", "old", "edge-", "edge+", "string", "future"
 }
 
-const maxAge = 3600
+// The maximum token age comes from three places: an explicit SecurityConfig.TokenMaxAge, the
+// SEC_TOKEN_MAX_AGE environment variable, or the 1 h default. setAge selects one; maxAge is the
+// value the reference uses, cfgAge what the configurations carry.
+var maxAge int64 = 900
+var cfgAge = 900
+
+var ageModes = []string{"explicit-900", "default-3600", "env-1500"}
+
+func setAge(mode int) {
+	switch mode % 3 {
+	case 0:
+		maxAge, cfgAge = 900, 900
+		_ = os.Unsetenv("SEC_TOKEN_MAX_AGE")
+	case 1:
+		maxAge, cfgAge = 3600, 0
+		_ = os.Unsetenv("SEC_TOKEN_MAX_AGE")
+	case 2:
+		maxAge, cfgAge = 1500, 0
+		_ = os.Setenv("SEC_TOKEN_MAX_AGE", "1500")
+	}
+}
 
 type builtTok struct {
 	text     string // header.payload
@@ -145,7 +166,7 @@ func serverCfg() *security.SecurityConfig {
 	c := kit.BaseConfig(security.SecurityRequired, security.SecurityOptional, security.AuthToken)
 	c.SessionCache = nil
 	env.Apply(nil, c)
-	c.TokenMaxAge = maxAge
+	c.TokenMaxAge = cfgAge
 	return c
 }
 
@@ -558,6 +579,26 @@ func TestC11Exchange(t *testing.T) {
 			}
 		}
 	}
+	// the token-age limit from the 1 h default and from SEC_TOKEN_MAX_AGE (sequential passes: the
+	// environment is process-wide), for the cases whose verdict depends on it
+	for mode := 1; mode <= 2; mode++ {
+		setAge(mode)
+		var aged []ClientCase
+		for _, c := range ccs {
+			if (c.Tok.Iat == "old" || c.Tok.Iat == "edge-" || c.Tok.Iat == "edge+" || c.Tok.Iat == "recent") && c.Tok.Exp == "future" && c.Tok.Sub == "ok" && c.KnowsSig && c.Claim == "sub" {
+				aged = append(aged, c)
+			}
+		}
+		parallel(len(aged), func(i int) {
+			v := runClientCase(aged[i])
+			js, _ := json.Marshal(aged[i])
+			ev.Case("scripted-client/"+ageModes[mode], ageModes[mode]+string(js))
+			if v != "" {
+				report(ageModes[mode]+": "+v, map[string]any{"part": "client", "case": aged[i], "age_mode": mode})
+			}
+		})
+	}
+	setAge(0)
 	parallel(len(ccs), func(i int) {
 		v := runClientCase(ccs[i])
 		js, _ := json.Marshal(ccs[i])
@@ -689,7 +730,7 @@ func refVerify(tok string) (accept bool, fuzzy bool) {
 }
 
 func verifyCfg() *security.SecurityConfig {
-	c := &security.SecurityConfig{TokenMaxAge: maxAge}
+	c := &security.SecurityConfig{TokenMaxAge: cfgAge}
 	env.Apply(nil, c)
 	return c
 }
@@ -720,6 +761,9 @@ func TestC11VerifyGenerated(t *testing.T) {
 	rapid.Check(t, func(t *rapid.T) {
 		spec := TokSpec{rapid.SampledFrom(keyKinds).Draw(t, "key"), rapid.SampledFrom(subKinds).Draw(t, "sub"),
 			rapid.SampledFrom(expKinds).Draw(t, "exp"), rapid.SampledFrom(iatKinds).Draw(t, "iat")}
+		mode := rapid.IntRange(0, 2).Draw(t, "ageMode")
+		setAge(mode)
+		defer setAge(0)
 		bt := build(spec)
 		tok := bt.full
 		mut := rapid.SampledFrom([]string{"none", "none", "char", "char", "char", "drop-sig", "empty-sig", "trunc", "space", "extra-part", "swap-sig"}).Draw(t, "mut")
@@ -748,7 +792,7 @@ func TestC11VerifyGenerated(t *testing.T) {
 		if mut != "none" || spec != (TokSpec{"named", "ok", "future", "recent"}) {
 			k = tok
 		}
-		ev.Case("verify:"+mut, k)
+		ev.Case("verify:"+mut+"/"+ageModes[mode], k)
 		ev.Sample("verify", map[string]any{"spec": spec, "mutation": mut})
 		if v != "" {
 			t.Fatalf("C11 violated: %s", v)
@@ -809,6 +853,9 @@ func TestC11Replay(t *testing.T) {
 	}
 	var part string
 	_ = json.Unmarshal(raw["part"], &part)
+	var mode int
+	_ = json.Unmarshal(raw["age_mode"], &mode)
+	setAge(mode)
 	var v string
 	switch part {
 	case "client":
